@@ -348,73 +348,72 @@ class MO:
 _MIR_CACHE = {}
 
 
-def _src_hash():
+def _tree_hash(root):
+    """Content hash of an (overlay) copy of the crate: engine/src, manifests, Cargo.lock."""
     import hashlib
     h = hashlib.sha256()
-    base = os.path.join(ov.REPO, "engine")
-    for root, _dirs, files in sorted(os.walk(os.path.join(base, "src"))):
+    base = os.path.join(root, "engine")
+    for r_, _dirs, files in sorted(os.walk(os.path.join(base, "src"))):
         for f in sorted(files):
-            p = os.path.join(root, f)
-            h.update(p.encode())
-            with open(p, "rb") as fh:
+            p_ = os.path.join(r_, f)
+            h.update(os.path.relpath(p_, root).encode())
+            with open(p_, "rb") as fh:
                 h.update(fh.read())
-    for f in ("Cargo.toml", "build.rs"):
-        p = os.path.join(base, f)
-        if os.path.exists(p):
-            with open(p, "rb") as fh:
+    for f in (os.path.join("engine", "Cargo.toml"), os.path.join("engine", "build.rs"), "Cargo.lock"):
+        p_ = os.path.join(root, f)
+        if os.path.exists(p_):
+            with open(p_, "rb") as fh:
                 h.update(fh.read())
-    with open(os.path.join(ov.REPO, "Cargo.lock"), "rb") as fh:
-        h.update(fh.read())
     return h.hexdigest()[:24]
 
 
 def load_mir(target, notes=None):
-    """MIR of /repo's current working tree (lib or a bin), parsed.  The dump is a build artefact
-    keyed by the content hash of engine/src + manifests, so an unchanged tree is not recompiled
-    by every property's check; any edit to /repo produces a new key and a fresh dump."""
+    """MIR of /repo's current working tree (lib or a bin), parsed.  /repo is first copied to a scratch
+    overlay; the dump is a build artefact keyed by the content hash *of that copy*, so the key always
+    describes exactly the source that is (or was) compiled, even if /repo is edited concurrently.  An
+    unchanged tree is not recompiled by every property's check; any edit gives a new key and a fresh dump."""
     from . import mir as M
-    key = (target, _src_hash())
-    if key in _MIR_CACHE:
-        return _MIR_CACHE[key]
+    import fcntl
+    import hashlib
     cache_dir = os.path.join(ov.BUILD_DIR, "mir-cache")
     os.makedirs(cache_dir, exist_ok=True)
-    path = os.path.join(cache_dir, "%s-%s.mir" % (target, key[1]))
     dev = os.environ.get("VERIF_MIR_" + target.upper())
-    text = None
     if dev and os.path.exists(dev):
-        text = open(dev).read()
-    elif os.path.exists(path) and not os.environ.get("VERIF_NO_MIR_CACHE"):
-        text = open(path).read()
-        if notes is not None:
-            notes.append("MIR(%s): reused dump for source hash %s" % (target, key[1]))
-    if text is None:
-        import fcntl
-        lock = open(os.path.join(cache_dir, ".lock"), "w")
-        fcntl.flock(lock, fcntl.LOCK_EX)
-        try:
+        return M.parse(open(dev).read())
+    lock = open(os.path.join(cache_dir, ".lock"), "w")
+    fcntl.flock(lock, fcntl.LOCK_EX)
+    try:
+        with ov.Overlay("mir-%s" % target, "mir") as o:
+            key = _tree_hash(o.root)
+            if (target, key) in _MIR_CACHE:
+                return _MIR_CACHE[(target, key)]
+            path = os.path.join(cache_dir, "%s-%s.mir" % (target, key))
+            # impl-type names are resolved by reading the source at the MIR's line numbers: read them from the copy
+            M.SOURCE_ROOT = o.root
+            M._impl_cache.clear()
             if os.path.exists(path) and not os.environ.get("VERIF_NO_MIR_CACHE"):
                 text = open(path).read()
+                if notes is not None:
+                    notes.append("MIR(%s): reused dump for source hash %s" % (target, key))
             else:
-                with ov.Overlay("mir-%s" % target, "mir") as o:
-                    text, secs, err = M.dump_mir(o, target)
+                text, secs, err = M.dump_mir(o, target)
                 if err:
                     raise RuntimeError(err)
                 if notes is not None:
-                    notes.append("MIR(%s): dumped %d bytes in %.0fs (source hash %s)" % (target, len(text), secs, key[1]))
+                    notes.append("MIR(%s): dumped %d bytes in %.0fs (source hash %s)" % (target, len(text), secs, key))
                 tmp = path + ".tmp.%d" % os.getpid()
                 with open(tmp, "w") as fh:
                     fh.write(text)
                 os.replace(tmp, path)
-                # keep the cache small
                 olds = sorted((os.path.getmtime(os.path.join(cache_dir, f)), f) for f in os.listdir(cache_dir) if f.endswith(".mir"))
-                for _t, f in olds[:-6]:
+                for _t, f in olds[:-8]:
                     os.unlink(os.path.join(cache_dir, f))
-        finally:
-            fcntl.flock(lock, fcntl.LOCK_UN)
-            lock.close()
-    funcs = M.parse(text)
-    _MIR_CACHE[key] = funcs
-    return funcs
+            funcs = M.parse(text)
+            _MIR_CACHE[(target, key)] = funcs
+            return funcs
+    finally:
+        fcntl.flock(lock, fcntl.LOCK_UN)
+        lock.close()
 
 
 def run_mir_obligations(prop_id, tier, mos, notes=None):
